@@ -609,7 +609,8 @@ def c14_objectives(tier, seed):
         leaf_ids = [v.id for v in leaves_of(cfg)]
         prio = {rng.choice(leaf_ids): rng.choice([-2, -1, 1, 2]) for _ in range(rng.randint(0, 2))}
         obj = np.asarray(poly._vectors_from_prios([prio])[0], dtype=object)
-        dp = cfg.default_prios
+        # independent of default_prios (the function under test): the tag a node carries, -1 (plain) for all others
+        dp = {x.id: x.prio for x in cfg.flatten() if hasattr(x, "prio")}
         levels = sorted({abs(v) for v in prio.values()}, reverse=True)
 
         def key(x):
